@@ -1722,12 +1722,155 @@ Qed.
 
 End park.
 
-(** *** the full monotonicity statement is FALSE once setLocalHead is split:
-    a gossip head 19 is verified against 17 and parks before pending.Add;
-    caller 1 learns 20 (pending = 20); the sync loop stores up to 20 and empties
-    pending; caller 2 gets a failing answer and returns its subjective head 20;
-    the parked call resumes: pending.Add(19) finds pending empty; caller 3,
-    which started after caller 2 returned, returns 19. *)
+(** *** monotonicity across split setLocalHead calls (since /repo dd38a4c the local
+    head is the higher of the store head and the pending head, and each half of
+    setLocalHead only raises one of the two) *)
+Section parkmono.
+Variable p : params.
+Variable tv : hdr -> hdr -> tvres.
+
+Lemma slh_check_mono s h : L s <= L (fst (slh_check s h)).
+Proof. unfold slh_check. cbn. rewrite !L_max. cbn. pose proof (store_append_mono (s_store s) h). lia. Qed.
+
+Lemma slh_add_mono s h : L s <= L (slh_add s h).
+Proof. unfold slh_add. rewrite !L_max. cbn. pose proof (pend_add_mono (s_pend s) h). lia. Qed.
+
+Lemma spec_upper c c' o i : sbj_below c -> step_spec c c' o i ->
+  sbj_below c' /\ L (c_s c) <= L (c_s c') /\ rets_le o (L (c_s c')).
+Proof.
+  intros HI (S1 & S2 & S3 & S4). split; [|split; [exact S1|]].
+  - intros j sbj Hj. destruct (Nat.eq_dec j i) as [->|Hne].
+    + destruct (S3 _ Hj) as [Ho|[_ Ho]]; [specialize (HI _ _ Ho)|]; lia.
+    + rewrite (S2 _ Hne) in Hj. specialize (HI _ _ Hj). lia.
+  - intros j v Hin. destruct (S4 _ _ Hin) as [-> [Hv|Hv]]; [lia|]. specialize (HI _ _ Hv). lia.
+Qed.
+
+Lemma spec_lower lo b c c' o i : sbj_above lo b c -> step_spec c c' o i ->
+  sbj_above lo b c' /\ rets_ge b o lo.
+Proof.
+  intros [H1 H2] (S1 & S2 & S3 & S4). split; [split; [lia|]|].
+  - intros sbj Hj. destruct (Nat.eq_dec b i) as [->|Hne].
+    + destruct (S3 _ Hj) as [Ho|[_ Ho]]; [apply H2; assumption|lia].
+    + rewrite (S2 _ Hne) in Hj. apply H2; assumption.
+  - intros v Hin. destruct (S4 _ _ Hin) as [<- [Hv|Hv]]; [lia|]. apply H2; assumption.
+Qed.
+
+Lemma pstep_spec ps ev ps' o : pstep p tv ps ev = (ps', o) ->
+  exists i, step_spec (p_c ps) (p_c ps') o i.
+Proof.
+  unfold pstep. destruct ev as [e|h|t|i|i].
+  - destruct (blocked ps e); [intros [= <- <-]; exists 0%nat; apply spec_stutter|].
+    destruct (cstep p tv (p_c ps) e) as [c' o'] eqn:Hs. intros [= <- <-]. cbn. eapply cstep_spec; eassumption.
+  - destruct (p_g ps); [intros [= <- <-]; exists 0%nat; apply spec_stutter|].
+    destruct (local_head (c_s (p_c ps))) as [sbj|]; [|intros [= <- <-]; exists 0%nat; apply spec_stutter].
+    destruct (Verify _ _ _ _ _); [intros [= <- <-]; exists 0%nat; apply spec_stutter|].
+    pose proof (slh_check_mono (c_s (p_c ps)) h) as Hm.
+    destruct (slh_check (c_s (p_c ps)) h) as [s1 need]. intros [= <- <-]. exists 0%nat. cbn.
+    apply spec_global. exact Hm.
+  - destruct (p_g ps) as [h|]; [|intros [= <- <-]; exists 0%nat; apply spec_stutter].
+    intros [= <- <-]. exists 0%nat. cbn. apply spec_global.
+    pose proof (slh_add_mono (c_s (p_c ps)) h) as Hm.
+    destruct t as [|th]; [exact Hm|]. etransitivity; [exact Hm|apply tail_apply_mono].
+  - destruct (c_pc (p_c ps) i) as [|k|k|k g|k a|net|net|] eqn:Hpc; try (intros [= <- <-]; exists i; apply spec_stutter).
+    destruct k as [|sbj]; [intros [= <- <-]; exists i; apply spec_stutter|].
+    destruct a as [nh|nh| |]; try (intros [= <- <-]; exists i; apply spec_stutter).
+    destruct (_ || _); [intros [= <- <-]; exists i; apply spec_stutter|].
+    pose proof (slh_check_mono (c_s (p_c ps)) nh) as Hm.
+    destruct (slh_check (c_s (p_c ps)) nh) as [s1 need]. intros [= <- <-]. exists i. cbn.
+    apply spec_of; [exact Hm|discriminate|intros j v []].
+  - destruct (find _ _) as [[j nh]|]; [|intros [= <- <-]; exists i; apply spec_stutter].
+    intros [= <- <-]. exists 0%nat. cbn. apply spec_global. apply slh_add_mono.
+Qed.
+
+Lemma prun_upper l : forall ps ps' tr, sbj_below (p_c ps) -> prun p tv ps l = (ps', tr) ->
+  sbj_below (p_c ps') /\ L (c_s (p_c ps)) <= L (c_s (p_c ps')) /\ rets_le tr (L (c_s (p_c ps'))).
+Proof.
+  induction l as [|e l IH]; intros ps ps' tr HI; cbn.
+  - intros [= <- <-]. split; [assumption|]. split; [lia|]. intros j v [].
+  - destruct (pstep p tv ps e) as [p1 o1] eqn:Hs.
+    destruct (prun p tv p1 l) as [p2 o2] eqn:Hr. intros [= <- <-].
+    destruct (pstep_spec _ _ _ _ Hs) as [i Hsp].
+    destruct (spec_upper _ _ _ _ HI Hsp) as (HI1 & Hm1 & Hr1).
+    destruct (IH _ _ _ HI1 Hr) as (HI2 & Hm2 & Hr2).
+    split; [assumption|]. split; [lia|].
+    intros j v Hin. apply in_app_or in Hin. destruct Hin as [Hin|Hin]; [specialize (Hr1 _ _ Hin); lia|eauto].
+Qed.
+
+Lemma prun_lower lo b l : forall ps ps' tr, sbj_above lo b (p_c ps) -> prun p tv ps l = (ps', tr) ->
+  sbj_above lo b (p_c ps') /\ rets_ge b tr lo.
+Proof.
+  induction l as [|e l IH]; intros ps ps' tr HJ; cbn.
+  - intros [= <- <-]. split; [assumption|]. intros v [].
+  - destruct (pstep p tv ps e) as [p1 o1] eqn:Hs.
+    destruct (prun p tv p1 l) as [p2 o2] eqn:Hr. intros [= <- <-].
+    destruct (pstep_spec _ _ _ _ Hs) as [i Hsp].
+    destruct (spec_lower _ _ _ _ _ _ HJ Hsp) as (HJ1 & Hr1).
+    destruct (IH _ _ _ HJ1 Hr) as (HJ2 & Hr2).
+    split; [assumption|]. intros v Hin. apply in_app_or in Hin. destruct Hin; eauto.
+Qed.
+
+(** Monotonicity in real-time order, for every schedule INCLUDING those that
+    separate the two halves of setLocalHead. *)
+Theorem monotone_full s l1 l2 p1 t1 p2 t2 a b va vb :
+  prun p tv (pinit s) l1 = (p1, t1) -> prun p tv p1 l2 = (p2, t2) ->
+  In (ORet a (ROk va)) t1 -> c_pc (p_c p1) b = PIdle -> In (ORet b (ROk vb)) t2 ->
+  h_height va <= h_height vb.
+Proof.
+  intros H1 H2 Ha Hb Hvb.
+  destruct (prun_upper _ _ _ _ (cinit_below s) H1) as (_ & _ & Hu).
+  assert (HJ : sbj_above (L (c_s (p_c p1))) b (p_c p1)).
+  { split; [lia|]. rewrite Hb. discriminate. }
+  destruct (prun_lower _ _ _ _ _ _ HJ H2) as (_ & Hl).
+  specialize (Hu _ _ Ha). specialize (Hl _ Hvb). lia.
+Qed.
+
+Lemma prun_app l1 l2 ps :
+  prun p tv ps (l1 ++ l2) =
+  let '(q1, t1) := prun p tv ps l1 in let '(q2, t2) := prun p tv q1 l2 in (q2, t1 ++ t2).
+Proof.
+  revert ps. induction l1 as [|e l1 IH]; intros ps; cbn.
+  - destruct (prun p tv ps l2); reflexivity.
+  - destruct (pstep p tv ps e) as [q1 o1]. rewrite IH.
+    destruct (prun p tv q1 l1) as [q2 o2]. destruct (prun p tv q2 l2) as [q3 o3].
+    rewrite app_assoc. reflexivity.
+Qed.
+
+(** threads whose steps do not occur in a schedule keep their program counter *)
+Definition touches (j : nat) (e : pev) : Prop :=
+  match e with PEv (CStep i _) | PHeadA i | PHeadB i => i = j | _ => False end.
+
+Lemma puntouched j l : forall ps ps' tr, prun p tv ps l = (ps', tr) ->
+  (forall e, In e l -> ~ touches j e) -> c_pc (p_c ps') j = c_pc (p_c ps) j.
+Proof.
+  induction l as [|e l IH]; intros ps ps' tr; cbn; [intros [= <- <-] _; reflexivity|].
+  destruct (pstep p tv ps e) as [q1 o1] eqn:Hs. destruct (prun p tv q1 l) as [q2 o2] eqn:Hr.
+  intros [= <- <-] Hn. rewrite (IH _ _ _ Hr) by (intros x Hx; apply Hn; right; exact Hx).
+  destruct (pstep_spec _ _ _ _ Hs) as [i (_ & S2 & _)].
+  specialize (Hn e (or_introl eq_refl)).
+  (* the thread a step may change is the one it names *)
+  revert Hs. unfold pstep. destruct e as [e|h|t|i'|i']; cbn in Hn.
+  - destruct (blocked ps e); [intros [= <- <-]; reflexivity|].
+    destruct (cstep p tv (p_c ps) e) as [c' o'] eqn:Hc. intros [= <- <-]. cbn.
+    destruct e as [d|h b t|h| |i' x]; cbn in Hc; try (injection Hc as <- <-; reflexivity).
+    eapply tstep_others; [exact Hc|]. intros ->. apply Hn. reflexivity.
+  - destruct (p_g ps); [intros [= <- <-]; reflexivity|].
+    destruct (local_head _); [|intros [= <- <-]; reflexivity].
+    destruct (Verify _ _ _ _ _); [intros [= <- <-]; reflexivity|].
+    destruct (slh_check _ _). intros [= <- <-]. reflexivity.
+  - destruct (p_g ps); intros [= <- <-]; reflexivity.
+  - destruct (c_pc (p_c ps) i') as [|k|k|k g|k a|net|net|]; try (intros [= <- <-]; reflexivity).
+    destruct k; [intros [= <- <-]; reflexivity|]. destruct a; try (intros [= <- <-]; reflexivity).
+    destruct (_ || _); [intros [= <- <-]; reflexivity|]. destruct (slh_check _ _). intros [= <- <-]. cbn.
+    apply upd_other. intros ->. apply Hn. reflexivity.
+  - destruct (find _ _) as [[j' nh]|]; intros [= <- <-]; reflexivity.
+Qed.
+
+End parkmono.
+
+(** the schedule that used to refute monotonicity (finding F19, fixed by /repo dd38a4c):
+    a gossip head 19 parks between the two halves of setLocalHead; caller 1 learns 20;
+    the sync loop stores up to 20; caller 2 returns 20; the parked call resumes and adds
+    19 to pending; caller 3 now also returns 20 *)
 Definition rf_p : params := Params 1000000 10 0 10 2.
 Definition rf_h (n : N) : hdr := Hdr false 1 n 900 n (n - 1) true.
 Definition rf_tv (t u : hdr) : tvres := TVOk.
@@ -1741,20 +1884,3 @@ Definition rf_sched1 : list pev :=
 Definition rf_sched2 : list pev :=
   [PGossipB (TOk None);
    PEv (CStep 3 ICall); PEv (CStep 3 INone); PEv (CStep 3 (IAns GFail)); PEv (CStep 3 (IBif rf_nob))].
-
-Lemma monotone_refuted :
-  exists p tv s sched1 sched2 p1 t1 p2 t2 a b va vb,
-    prun p tv (pinit s) sched1 = (p1, t1) /\ prun p tv p1 sched2 = (p2, t2) /\
-    In (ORet a (ROk va)) t1 /\ c_pc (p_c p1) b = PIdle /\ parked_t (p_t p1) b = false /\
-    In (ORet b (ROk vb)) t2 /\ h_height vb < h_height va.
-Proof.
-  exists rf_p, rf_tv, rf_s, rf_sched1, rf_sched2.
-  destruct (prun rf_p rf_tv (pinit rf_s) rf_sched1) as [p1 t1] eqn:H1.
-  destruct (prun rf_p rf_tv p1 rf_sched2) as [p2 t2] eqn:H2.
-  exists p1, t1, p2, t2, 2%nat, 3%nat, (rf_h 20), (rf_h 19).
-  vm_compute in H1. injection H1 as <- <-.
-  vm_compute in H2. injection H2 as <- <-.
-  repeat split; try reflexivity.
-  - cbn. auto 10.
-  - cbn. auto 10.
-Qed.
